@@ -67,6 +67,11 @@ class P(Prop):
                 exp[v] = c if c is not None else f if f is not None else e if e is not None else dflt
                 multi += (bin(src).count("1") >= 2)
             rnd.shuffle(top); rnd.shuffle(cors)
+            # blank lines and full-line comments anywhere - before, between and after the entries, inside the table too (they end nothing)
+            for lst in (top, cors):
+                if lst and rnd.random() < 0.4:
+                    for _ in range(rnd.randint(1, 3)):
+                        lst.insert(rnd.randrange(len(lst) + 1), rnd.choice(["", "", "   ", "\t", "# note", "  # indented note", "#", "# [table] in a comment", "#[cors]"]))
             # table header spellings: indented, spaces inside, a trailing comment (the reader strips blanks before it looks for the bracket)
             hdr = rnd.choice(["[cors]", "[cors]", "  [cors]", "\t[cors]", "[ cors ]", "[cors] # table", "  [cors]   # c"])
             lines = top + (["", "# c"] if rnd.random() < 0.3 else []) + ([hdr] + cors if cors or rnd.random() < 0.2 else [])
